@@ -87,8 +87,10 @@ PROPS.update({
                       "joint node multiset equals that of the inputs (so one step preserves both sizes and every degree). The chain around it (numpy index draws, nested closure mutating "
                       "the enclosing list, de-duplication) and the directed model are covered by the bounded tier over many seeds."),
                 design_ref="DESIGN.md §7 C13", assumptions=["np.random.rand() returns a real in [0,1) (havoc)"]),
-    "C14": _b("bounded run-time contract checking of the random generators over a parameter grid and many seeds",
-              "numpy/random based generators are outside the deductive engine; structural contracts and same-seed reproducibility are evaluated for every parameter "
+    "C14": _b("bounded run-time contract checking of the random generators over a parameter grid and many seeds + contract-based deductive verification (AST->VC, z3) of add_random_edge / add_random_edges for every outcome of random.sample",
+              "add_random_edge(s), in place and on a copy, are proved to insert only hyperedges of the requested size over existing nodes and to leave the nodes, every other hyperedge's weight "
+              "and metadata and all node metadata intact, whatever random.sample returns (its result is havoc within its documented contract; termination of the drawing loop is not proved). "
+              "The other numpy/random based generators are outside the deductive engine; structural contracts and same-seed reproducibility are evaluated for every parameter "
               "combination of a stated grid and seeds 0..19 (quick) / 0..199 (thorough).", "DESIGN.md §7 C14"),
     "C15": _b("symbolic-real execution of the real closed-form methods on sympy object arrays (all real parameter values, fixed small shapes) + bounded run-time contract checking of fit()",
               "Floating-point numpy code is outside the deductive engine. The closed forms are executed on arrays of sympy symbols and compared as polynomials with the brute-force sums "
